@@ -98,6 +98,105 @@ Theorem C18_application_order : forall (P : Type) (tbl : list (option nat * P)) 
        map (fun u => (u, false)) (rev (map fst cb))).
 Proof. exact (@trace_tbl_shape). Qed.
 
+(* ---------------- re-entrant unit definitions ----------------------
+   A user-defined Unit whose callables are themselves written with
+   units.convert (yard = Unit(meter, lambda m: convert(meter, inch, m) / 36,
+   lambda y: convert(inch, meter, y * 36))), further units hung below it, and
+   such definitions nested to any depth.  Each activation of convert() works on
+   its own chains: [via_link s d k] is the pair of callables
+   y |-> convert d s (y * k)  /  m |-> convert s d m / k.
+
+   A user's module is a definition list [spec]: unit i has base_unit = an
+   earlier unit or None and callables [UAffine a b] (x |-> a x + b and its
+   inverse) or [UVia s d k] (the above, on earlier units s, d);
+   [build_units spec] are the resulting Unit objects, [convert_built] is
+   convert() on them, [trace_built] is convert() with the log of every
+   callable application, the nested activations' included.
+   [spec_ok]: a <> 0 and k <> 0 for every non-root unit; [spec_linear]:
+   additionally b = 0. *)
+
+(* a unit defined through convert() qualifies for the generic theorems
+   whenever the units it mentions do *)
+Theorem C18_reentrant_link : forall (s d : list link) (k : Q), ~ k == 0 ->
+  (Forall link_inverse s -> Forall link_inverse d -> link_inverse (via_link s d k)) /\
+  (Forall link_linear s -> Forall link_linear d -> link_linear (via_link s d k)).
+Proof.
+  exact (fun s d k Hk => conj (fun Hs Hd => via_link_inverse s d k Hs Hd Hk)
+                              (fun Hs Hd => via_link_linear s d k Hs Hd Hk)).
+Qed.
+
+(* so does every unit of a definition list, at any depth of chaining and of
+   nesting ... *)
+Theorem C18_reentrant_units_qualify : forall spec tbl,
+  build_units spec = Val tbl ->
+  (spec_ok spec = true -> table_links_inverse (pure_table tbl)) /\
+  (spec_linear spec = true -> table_links_linear (pure_table tbl)).
+Proof.
+  exact (fun spec tbl H => conj (fun Hok => built_inverse spec tbl Hok H)
+                                (fun Hok => built_linear spec tbl Hok H)).
+Qed.
+
+(* ... hence: same unit, there and back, a -> b -> c = a -> c for every ordered
+   triple of such units *)
+Theorem C18_reentrant_consistent : forall spec tbl,
+  spec_ok spec = true -> build_units spec = Val tbl ->
+  (forall u x y, convert_built tbl u u x = Val y -> y == x) /\
+  (forall a b x y, convert_built tbl a b x = Val y ->
+     exists z, convert_built tbl b a y = Val z /\ z == x) /\
+  (forall a b c x y z, convert_built tbl a b x = Val y -> convert_built tbl b c y = Val z ->
+     exists w, convert_built tbl a c x = Val w /\ z == w).
+Proof. exact built_consistent. Qed.
+
+Theorem C18_reentrant_linear : forall spec tbl a b x1 x2 c y1 y2,
+  spec_linear spec = true -> build_units spec = Val tbl ->
+  convert_built tbl a b x1 = Val y1 -> convert_built tbl a b x2 = Val y2 ->
+  (exists s, convert_built tbl a b (x1 + x2) = Val s /\ s == y1 + y2) /\
+  (exists m, convert_built tbl a b (c * x1) = Val m /\ m == c * y1).
+Proof. exact built_convert_linear. Qed.
+
+(* units defined in order: every conversion between two of them returns (no
+   loop runs forever, nothing raises), whatever the callables nest *)
+Theorem C18_reentrant_returns : forall spec tbl a b x,
+  build_units spec = Val tbl -> (a < length tbl)%nat -> (b < length tbl)%nat ->
+  exists y, convert_built tbl a b x = Val y.
+Proof. exact built_convert_returns. Qed.
+
+(* the run that logs returns the number of the run that does not *)
+Theorem C18_reentrant_log_value : forall spec tbl a b x,
+  build_units spec = Val tbl ->
+  match trace_built tbl a b x, convert_built tbl a b x with
+  | Val r, Val y => fst r = y
+  | Raise e, Raise e' => e = e'
+  | Loops, Loops => True
+  | _, _ => False
+  end.
+Proof. exact built_trace_value. Qed.
+
+(* Which callables run, in which order, nested activations included:
+   [up_log l] / [down_log l] is what ONE application of unit_to_base /
+   base_to_unit of l appends to the log.  convert(a, b, x) appends the logs of
+   a's chain in order, then those of b's chain from the root end -- each in one
+   piece and for every x: after a nested activation returns, the outer one
+   goes on exactly where it was. *)
+Theorem C18_reentrant_application_order : forall spec tbl a b x ca cb,
+  build_units spec = Val tbl -> chain_of tbl a = Val ca -> chain_of tbl b = Val cb ->
+  exists r, trace_built tbl a b x = Val r /\
+            snd r = concat (map up_log (llinks ca)) ++ concat (map down_log (rev (llinks cb))).
+Proof. exact built_trace_log. Qed.
+
+(* ... where a plain callable logs itself, and a callable that calls convert()
+   logs itself followed by the complete log of that conversion *)
+Theorem C18_reentrant_callable_log :
+  (forall u l, uniform (logged u l) /\
+     up_log (logged u l) = [(u, true)] /\ down_log (logged u l) = [(u, false)]) /\
+  (forall u s d k, Forall uniform s -> Forall uniform d ->
+     uniform (lvia u s d k) /\
+     up_log (lvia u s d k) =
+       (u, true) :: concat (map up_log d) ++ concat (map down_log (rev s)) /\
+     down_log (lvia u s d k) =
+       (u, false) :: concat (map up_log s) ++ concat (map down_log (rev d))).
+Proof. exact (conj logged_log lvia_log). Qed.
+
 (* ---------------- the built-in table ------------------------------ *)
 
 Section Builtin.
@@ -345,6 +444,46 @@ Example C18_nv_cycle :
   convert_tbl [ (Some 1%nat, scale_link 2); (Some 0%nat, scale_link 3) ] 0 0 1 = Loops.
 Proof. reflexivity. Qed.
 
+(* re-entrant definitions: metre, centimetre, foot, inch as plain units, then
+   4 yard (via convert(meter, inch, .) / 36), 5 fathom = 2 yd below yard,
+   6 cable = 100 fathoms below fathom, 7 rod = 5.5 yd defined below foot via
+   convert(foot, yard, .) / 5.5 -- a nested call whose own chain contains a
+   callable that calls convert() again *)
+Definition nv_yard_spec : list (option nat * uspec) :=
+  [ (None, UAffine 1 0); (Some 0%nat, UAffine (1 # 100) 0);
+    (Some 0%nat, UAffine (3048 # 10000) 0); (Some 2%nat, UAffine (1 # 12) 0);
+    (Some 0%nat, UVia 0 3 36); (Some 4%nat, UAffine 2 0); (Some 5%nat, UAffine 100 0);
+    (Some 2%nat, UVia 2 4 (11 # 2)) ].
+Definition nv_built_value (a b : nat) (x : Q) : option Q :=
+  match build_units nv_yard_spec with
+  | Val tbl => match convert_built tbl a b x with Val y => Some (Qred y) | _ => None end
+  | _ => None
+  end.
+Definition nv_built_log (a b : nat) : list (nat * bool) :=
+  match build_units nv_yard_spec with
+  | Val tbl => match trace_built tbl a b 1 with Val r => snd r | _ => [] end
+  | _ => []
+  end.
+Example C18_nv_reentrant :
+  spec_ok nv_yard_spec = true /\ spec_linear nv_yard_spec = true /\
+  nv_built_value 5 0 1 = Some (1143 # 625) /\        (* 1 fathom = 1.8288 m *)
+  nv_built_value 6 3 1 = Some 7200 /\                 (* 1 cable = 7200 in *)
+  nv_built_value 7 5 4 = Some 11 /\                   (* 4 rods = 11 fathoms *)
+  nv_built_value 0 7 (50292 # 10000) = Some 1 /\      (* 5.0292 m = 1 rod *)
+  (* metre -> fathom: yard's base_to_unit, inside it foot and inch of the
+     nested convert(meter, inch, .), and THEN fathom's base_to_unit *)
+  nv_built_log 0 5 = [(4, false); (2, false); (3, false); (5, false)]%nat /\
+  (* fathom -> rod: up fathom, yard (nested: inch, foot up); down foot, rod
+     (nested convert(foot, yard, .): foot up; yard down, nested foot, inch down) *)
+  nv_built_log 5 7 = [(5, true); (4, true); (3, true); (2, true);
+                      (2, false); (7, false); (2, true); (4, false); (2, false); (3, false)]%nat.
+Proof. repeat split; vm_compute; reflexivity. Qed.
+(* a definition that mentions a unit not defined yet is rejected, not guessed *)
+Example C18_nv_reentrant_forward_reference :
+  build_units [ (None, UAffine 1 0); (Some 0%nat, UVia 0 2 3); (Some 0%nat, UAffine 2 0) ]
+  = Raise NoSuchUnit.
+Proof. reflexivity. Qed.
+
 (* pressure: the repository's own test points (3.3 V supply, 2.0 V reading) *)
 Example C18_nv_consts_ok : consts_ok doc_consts = true.
 Proof. vm_compute. reflexivity. Qed.
@@ -405,6 +544,14 @@ Print Assumptions C18_table_there_and_back.
 Print Assumptions C18_table_composition.
 Print Assumptions C18_table_linear.
 Print Assumptions C18_application_order.
+Print Assumptions C18_reentrant_link.
+Print Assumptions C18_reentrant_units_qualify.
+Print Assumptions C18_reentrant_consistent.
+Print Assumptions C18_reentrant_linear.
+Print Assumptions C18_reentrant_returns.
+Print Assumptions C18_reentrant_log_value.
+Print Assumptions C18_reentrant_application_order.
+Print Assumptions C18_reentrant_callable_log.
 Print Assumptions C18_constants.
 Print Assumptions C18_pairwise_factors.
 Print Assumptions C18_builtin_chains_qualify.
